@@ -7,7 +7,8 @@ from ufo import build, err_kind
 
 ID = "C17"
 THEOREM = ("Ufo2ft.C17.C17_subsequence / C17_run / C17_write / C17_place / C17_skip / C17_collect / C17_case / "
-           "C17_gsub_first / C17_ellipsis / C17_gsub_inv_partial")
+           "C17_gsub_first / C17_ellipsis / C17_gsub_inv_partial / C17_gdef_gen / C17_gdef_place / C17_gdef_step / "
+           "C17_gdef_keeps_carets / C17_gdef_keeps_classes")
 N = {"quick": 2000, "thorough": 30000}
 RULE = ("probe stream (60%): random feature files (languagesystems, class/anchor definitions, comments, top-level lookup blocks - some "
         "with GDEF-relative lookup flags - and GDEF table blocks, GSUB and GPOS feature blocks, some useExtension, whose bodies mix "
@@ -21,16 +22,29 @@ RULE = ("probe stream (60%): random feature files (languagesystems, class/anchor
         "after each writer; the stock run's debugFeatureFile must be the same text and be feaLib's print-out of that AST, contain "
         "the user's statements (with the names of their enclosing blocks) as a subsequence, and GSUB must be the same for the "
         "case's writers, for featureWriters=None and for featureWriters=[] (bytes, after replacing the two GDEF-relative numbers of "
-        "a lookup - mark filtering set index, mark attachment class - by the glyph sets they denote). function level: marker "
+        "a lookup - mark filtering set index, mark attachment class - by the glyph sets they denote). hand-written GDEF: a tenth to "
+        "a half of the end-to-end files hold a `table GDEF` with any subset of {GlyphClassDef, LigatureCaretByPos, "
+        "LigatureCaretByIndex} (each caret form for one or several glyphs), Attach statements and comments in random order, on "
+        "fonts with caret_N / vcaret_N anchors on 0-2 glyphs and public.openTypeCategories absent / complete / 'unassigned' only / "
+        "invalid only; the model decides from the user's text and the font description what the GDEF writer still has to write, "
+        "the types of the statements it added are read off the AST, and in the binary GDEF.LigCaretList / GlyphClassDef must be the "
+        "same with and without writers whenever the user wrote that part by hand. GDEF probe stream (+15%): the shipped "
+        "GdefFeatureWriter called directly (no compile; skip or append mode) before / between / after 0-2 probe writers on such "
+        "files (30-70% with a hand-written table). function level: marker "
         "pattern on 12.6k texts (every character below U+3100 as prefix); initFeatureWriters on random writer lists "
         "(classes/instances, 0-3 ellipses, lib on/off, GSUB/GPOS/GDEF/None table tags). "
-        "non-trivial = some writer consumed a marker or skipped an existing feature (run), >=1 ellipsis or a GSUB writer (writers).")
+        "non-trivial = some writer consumed a marker or skipped an existing feature - the GDEF writer: skipped hand-written carets "
+        "or glyph classes although the font has data for them - (run), >=1 ellipsis or a GSUB writer (writers).")
 ASSUMED = [
     "feaLib's parser and asFea are inverse on the generated files (measured: the stock run's text is re-parsed and compared)",
     "object identity of feaLib AST nodes is represented by the ids the harness attaches to the parsed user statements",
     "feature blocks built by writers contain no comment matching the marker pattern (true of the shipped writers)",
     "GSUB is compiled by feaLib from the user's substitution statements only (GSUB invariance is measured on every end-to-end case, not proved)",
-    "when the GDEF writer writes, and what the shipped writers hand to _insert, is font-data dependent and enters the model as observed input",
+    "what the shipped Curs/Kern/Mark writers hand to _insert is font-data dependent and enters the model as observed input",
+    "GDEF writer: the type of each user statement inside `table GDEF` is read by the harness from the first word of the user's text; "
+    "'the font has categories' and 'number of glyphs with caret anchors' are computed by the harness from the font description "
+    "(no skipExportGlyphs, single master); a top-level feature block named GlyphClassDefs/LigatureCarets cannot be written in a feature file",
+    "the contents of the generated GDEF statements (which glyphs, which caret coordinates) are not modelled, only their types and number",
 ]
 
 TMPROOT = "/tmp/build/C17-tmp"
@@ -124,7 +138,43 @@ def gen_body(rng, ids, src, gpos, shape, odd_ws):
 SHAPES = ["none", "top", "bottom", "middle", "alone", "miscased", "doubled", "nested", "soup"]
 
 
-def gen_file(rng, compile_safe, tags_pool, odd_ws=False):
+GDEF_GCD = "GlyphClassDef [a b c f i kadeva khadeva alef bet], [f_i], [acutecomb gravecomb anusvaradeva], ;"
+
+
+def gen_gdef_table(rng, ids, src):
+    """a hand-written `table GDEF`: any subset of {glyph classes, ligature carets by position, ligature carets by contour
+    point index} (each of the caret forms possibly for several glyphs), Attach statements and comments (a marker
+    among them: it means nothing there), in random order"""
+    body = []
+
+    def leaf(text):
+        x = ids(); src[str(x)] = text; body.append(["l", x])
+    # which of the writer's two features the user wrote by hand
+    gcd = rng.random() < 0.5
+    form = rng.choice(["none", "none", "pos", "pos", "idx", "idx", "idx", "both"])
+    if gcd:
+        leaf(rng.choice([GDEF_GCD, GDEF_GCD, "GlyphClassDef [a b], , [acutecomb gravecomb], ;"]))
+    if form in ("pos", "both"):
+        leaf(rng.choice(["LigatureCaretByPos f_i 300;", "LigatureCaretByPos f_i 200 400;", "LigatureCaretByPos [f_i] 250;"]))
+        if rng.random() < 0.25:
+            leaf("LigatureCaretByPos a 111;")
+    if form in ("idx", "both"):
+        leaf(rng.choice(["LigatureCaretByIndex f_i 1;", "LigatureCaretByIndex f_i 0 2;", "LigatureCaretByIndex [f_i] 2;",
+                         "LigatureCaretByIndex b 1;"]))
+        if rng.random() < 0.25:
+            leaf("LigatureCaretByIndex a 0;")
+    for _ in range(rng.choice([0, 0, 1, 2])):
+        if rng.random() < 0.5:
+            leaf(rng.choice(["Attach a 1;", "Attach [b c] 0 2;"]))
+        else:
+            c = ids(); body.append(["c", c, rng.choice(["# Automatic Code", "# carets by hand", "# LigatureCaretByPos f_i 1;"])])
+    if not any(it[0] == "l" for it in body):
+        leaf("Attach a 1;")
+    rng.shuffle(body)
+    return ["B", ids(), "table", "GDEF", False, body]
+
+
+def gen_file(rng, compile_safe, tags_pool, odd_ws=False, gdef_p=0.06):
     """returns (tree, src, shapes)"""
     ids, src, tree, shapes = Ids(), {}, [], []
     ls = [["DFLT", "dflt"], ["latn", "dflt"], ["dev2", "dflt"], ["hebr", "dflt"], ["latn", "TRK "]]
@@ -156,20 +206,9 @@ def gen_file(rng, compile_safe, tags_pool, odd_ws=False):
                 src[str(x)] = rng.choice(["lookupflag UseMarkFilteringSet [acutecomb];", "lookupflag UseMarkFilteringSet [gravecomb acutecomb];",
                                           "lookupflag MarkAttachmentType [acutecomb];"])
             tree.append(["B", u, "lookup", "UL%d" % u, False, body])
-        elif r < 0.38 and not have_gdef:
+        elif r < 0.32 + gdef_p and not have_gdef:
             have_gdef = True
-            u = ids()
-            body = []
-            if rng.random() < 0.6:
-                x = ids(); body.append(["l", x])
-                src[str(x)] = "GlyphClassDef [a b c f i kadeva khadeva alef bet], [f_i], [acutecomb gravecomb anusvaradeva], ;"
-            if rng.random() < 0.4:
-                c = ids(); body.append(["c", c, "# Automatic Code"])
-            if rng.random() < 0.4 or not body:
-                y = ids(); src[str(y)] = "LigatureCaretByPos f_i 300;"; body.append(["l", y])
-            if rng.random() < 0.3:
-                y = ids(); src[str(y)] = "Attach a 1;"; body.insert(rng.randrange(len(body) + 1), ["l", y])
-            tree.append(["B", u, "table", "GDEF", False, body])
+            tree.append(gen_gdef_table(rng, ids, src))
         else:
             gpos = rng.random() < 0.75
             tag = rng.choice([t for t in tags_pool if (t in GPOS_TAGS) == gpos] or tags_pool)
@@ -208,13 +247,13 @@ def gen_font(rng):
     mkmk = marks and rng.random() < 0.6
     indic = rng.random() < 0.5
     curs = rng.random() < 0.35
-    carets = rng.random() < 0.4
+    carets = rng.choice(["", "", "", "", "f_i", "f_i", "f_i", "f_i2", "f_i+a", "b"])
     glyphs = [
-        g("a", 0x61, [("top", 250, 500), ("bottom", 250, 0)] if marks else []),
-        g("b", 0x62, [("top", 260, 700)] if marks else []),
+        g("a", 0x61, ([("top", 250, 500), ("bottom", 250, 0)] if marks else []) + ([("vcaret_1", 0, 300)] if carets == "f_i+a" else [])),
+        g("b", 0x62, ([("top", 260, 700)] if marks else []) + ([("caret_1", 120, 0)] if carets == "b" else [])),
         g("c", 0x63, ([("entry", 0, 0), ("exit", 480, 10)] if curs else [])),
         g("f", 0x66), g("i", 0x69, ([("entry", 10, 0), ("exit", 400, 0)] if curs else [])),
-        g("f_i", None, ([("top_1", 100, 600), ("top_2", 400, 600)] if marks else []) + ([("caret_1", 250, 0)] if carets else [])),
+        g("f_i", None, ([("top_1", 100, 600), ("top_2", 400, 600)] if marks else []) + ([("caret_1", 250, 0)] if carets.startswith("f_i") else []) + ([("caret_2", 380, 0)] if carets == "f_i2" else [])),
         g("acutecomb", 0x301, ([("_top", 0, 500)] + ([("top", 0, 700)] if mkmk else [])) if marks else []),
         g("gravecomb", 0x300, ([("_top", 0, 500), ("_bottom", 0, 0)] + ([("top", 0, 720)] if mkmk else [])) if marks else []),
         g("kadeva", 0x915, [("top", 300, 600), ("bottom", 300, 0)] if (marks and indic) else []),
@@ -235,9 +274,14 @@ def gen_font(rng):
             kerning.append(["f_i", "acutecomb", -5])
     groups = {"public.kern1.ac": ["a", "c"]}
     cats = None
-    if rng.random() < 0.5:  # makes the GDEF writer produce a GlyphClassDef
+    r = rng.random()
+    if r < 0.45:  # makes the GDEF writer produce a GlyphClassDef
         cats = {"a": "base", "b": "base", "c": "base", "f_i": "ligature", "acutecomb": "mark", "gravecomb": "mark",
                 "kadeva": "base", "khadeva": "base", "anusvaradeva": "mark"}
+    elif r < 0.52:  # so does this: `any()` of the five sets, the unassigned ones included
+        cats = {"a": "unassigned"}
+    elif r < 0.58:  # not a category: warned about and ignored
+        cats = {"a": "bogus"}
     return {"upm": 1000, "glyphs": glyphs, "kerning": kerning, "groups": groups, "info": {}, "lib": {}, "cats": cats}
 
 
@@ -319,9 +363,21 @@ def gen(rng, n, mode):
                 steps[0]["produce"].append([steps[0]["produce"][0][0], gids()])  # the same tag twice
         yield {"kind": "probe", "file": tree, "src": src, "steps": steps, "shapes": shapes}
     for i in range(n - nprobe):
-        tree, src, shapes = gen_file(rng, True, GPOS_TAGS + ["liga", "calt"] if rng.random() < 0.7 else ["kern", "mark", "mkmk", "liga"])
+        tree, src, shapes = gen_file(rng, True, GPOS_TAGS + ["liga", "calt"] if rng.random() < 0.7 else ["kern", "mark", "mkmk", "liga"],
+                                     gdef_p=rng.choice([0.06, 0.2, 0.5]))
         yield {"kind": "compile", "file": tree, "src": src, "font": gen_font(rng), "writers": gen_writers(rng),
                "shapes": shapes, "lib": rng.choice(["ufoLib2", "ufoLib2", "defcon"])}
+    # the shipped GDEF writer called directly (no compile) on a font, before / between / after probe writers, on files
+    # that mostly hold a hand-written `table GDEF`
+    for i in range(max(60, int(n * 0.15))):
+        pool = rng.choice([["kern", "mark"], GPOS_TAGS[:4], ["kern", "dist", "liga"]])
+        tree, src, shapes = gen_file(rng, False, pool, gdef_p=rng.choice([0.3, 0.7, 0.7]))
+        gids = Ids(); gids.n = 5000
+        steps = [gen_spec(rng, gids, pool) for _ in range(rng.choice([0, 0, 1, 2]))]
+        opts = {"mode": "append"} if rng.random() < 0.15 else {}
+        steps.insert(rng.randrange(len(steps) + 1), {"type": "gdef", "options": opts})
+        yield {"kind": "probe", "file": tree, "src": src, "steps": steps, "shapes": shapes, "font": gen_font(rng),
+               "lib": rng.choice(["ufoLib2", "ufoLib2", "defcon"])}
 
 
 # ---------------------------------------------------------------------------------- initFeatureWriters
@@ -391,13 +447,25 @@ def run_writers(case):
 
 # ---------------------------------------------------------------------------------- run
 
-def _tags_of_run(tree, steps, ctxs, files, prefix):
+def _tags_of_run(tree, steps, ctxs, files, prefix, gseen=()):
     tags = [prefix]
     consumed = skipped = 0
     prev = tree
+    gseen = iter(gseen)
     for st, cx, f in zip(steps, ctxs, files):
         if st["type"] != "writer":
-            tags.append(prefix + ":gdef:" + ("noop" if not st["active"] else "new" if st["newGid"] else "into-user-table"))
+            seen = next(gseen, {"items": 0, "new": False, "kinds": []})
+            tags.append(prefix + ":gdef:" + ("new" if seen["new"] else "into-user-table" if seen["items"] else "noop"))
+            user = sorted({k for u, k in st["kinds"] if k != "other"})
+            if any(s[0] == "B" and s[2] == "table" and s[3] == "GDEF" for s in tree):
+                tags.append(prefix + ":gdef:user-table:" + ("+".join(user) or "neither") +
+                            (":font-has-carets" if st["carets"] else "") + (":font-has-cats" if st["hasCats"] else ""))
+            if ("idx" in user or "pos" in user) and st["carets"]:
+                skipped += 1
+                tags.append(prefix + ":gdef:existing-carets-skipped" + (":by-index-only" if "pos" not in user else ""))
+            if "gcd" in user and st["hasCats"]:
+                skipped += 1
+                tags.append(prefix + ":gdef:existing-classes-skipped")
             prev = f
             continue
         tags.append(prefix + (":skip" if st["skip"] else ":append") + ("" if st["pattern"] else ":nopattern"))
@@ -444,10 +512,16 @@ def run(case):
     if kind == "writers":
         return run_writers(case)
     if kind == "probe":
-        rec, err = L.run_probe(case["file"], case["src"], case["steps"])
-        steps = case["steps"]
-        obs = {"err": err, "files": None if err else rec.files, "ctx": rec.ctx}
-        tags, consumed, skipped = _tags_of_run(case["file"], steps, rec.ctx, rec.files, "probe")
+        font = info = None
+        if case.get("font"):  # the shipped GDEF writer, called directly, among the probe writers
+            font = build(_font_desc(case["font"], None), case.get("lib", "ufoLib2"))
+            info = L.gdef_info(case["file"], case["src"], case["font"])
+        rec, err = L.run_probe(case["file"], case["src"], case["steps"], font, info)
+        gsteps = iter([x for x in rec.steps if x["type"] == "gdef"])
+        steps = [(next(gsteps, None) or dict(info, type="gdef", base=0)) if sp["type"] == "gdef" else sp for sp in case["steps"]]
+        obs = {"err": err, "files": None if err else rec.files, "ctx": rec.ctx, "gdef": rec.gdef_obs}
+        tags, consumed, skipped = _tags_of_run(case["file"], steps, rec.ctx, rec.files, "gprobe" if font is not None else "probe",
+                                               rec.gdef_seen)
         tags += ["shape:" + s for s in set(case.get("shapes", []))] + (["err:" + err] if err else [])
         if rec.first != case["file"]:
             raise RuntimeError("labelled AST does not serialise to the case's tree")
@@ -456,6 +530,15 @@ def run(case):
     if kind == "compile":
         return run_compile(case)
     raise ValueError(kind)
+
+
+def _font_desc(fc, text):
+    fd = dict(fc); fd["lib"] = {}
+    if text is not None:
+        fd["features"] = text
+    if fd.get("cats"):
+        fd["lib"]["public.openTypeCategories"] = dict(fd["cats"])
+    return fd
 
 
 def run_markers(case):
@@ -545,6 +628,7 @@ def _run_compile(case):
         return build(fd, case["lib"])
 
     rec = L.Recorder(tree)
+    rec.gdef_info = L.gdef_info(tree, src, case["font"])
     L.install_recorder(rec)
     err = None
     rec_text = None
@@ -596,6 +680,12 @@ def _run_compile(case):
                     if err_kind(e) != "FeatureLibError":  # e.g. the lib lists the same writer twice
                         raise
             flags["gsub_same"] = same
+            # GDEF in the binary: what the user wrote by hand in `table GDEF` is what the font gets, writers or not
+            ukinds = {k for u, k in rec.gdef_info["kinds"]}
+            if "idx" in ukinds or "pos" in ukinds:
+                flags["gdef_user_carets_only"] = _gdef_part(tt, "LigCaretList") == _gdef_part(t0, "LigCaretList")
+            if "gcd" in ukinds:
+                flags["gdef_user_classes_only"] = _gdef_part(tt, "GlyphClassDef") == _gdef_part(t0, "GlyphClassDef")
         except Exception as e:
             err = "stock:" + err_kind(e)
     if rec.label_error:
@@ -603,9 +693,9 @@ def _run_compile(case):
     if rec.first is not None and rec.first != tree:
         flags["writers_got_user_ast"] = False
     obs = {"err": err, "files": None if err else rec.files, "ctx": rec.ctx, "flags": sorted(flags.items()),
-           "utext": utext, "otext": otext}
+           "utext": utext, "otext": otext, "gdef": rec.gdef_obs}
     tags_gsub = ["GSUB"] if any("sub " in v for v in src.values()) else []
-    tags, consumed, skipped = _tags_of_run(tree, rec.steps, rec.ctx, rec.files, "e2e")
+    tags, consumed, skipped = _tags_of_run(tree, rec.steps, rec.ctx, rec.files, "e2e", rec.gdef_seen)
     tags += ["e2e:writers:" + ("default" if cfg["arg"] is None and cfg["lib"] is None else "lib" if cfg["arg"] is None else
                                "explicit+ellipsis" if "..." in cfg["arg"] else "explicit")]
     tags += ["e2e-shape:" + s for s in set(case.get("shapes", []))] + (["err:" + err] if err else [])
@@ -615,6 +705,7 @@ def _run_compile(case):
         tags.append("e2e:GSUB-bytes-differ-only-by-GDEF-set-numbering" if flags.get("gsub_same") else "e2e:GSUB-differs")
     if "GSUB" in tags_gsub:
         tags.append("e2e:user-GSUB-present")
+    tags += ["e2e:binary:" + k for k in flags if k.startswith("gdef_")]
     for st in rec.steps:
         for t, g in st.get("produce", []):
             tags.append("e2e:generated:" + t)
@@ -650,6 +741,19 @@ def _table(tt, tag):
     return (tt[tag].compile(tt) if touched else raw, resolved)
 
 
+def _gdef_part(tt, attr):
+    """one sub-table of the compiled GDEF, as plain data"""
+    if "GDEF" not in tt:
+        return None
+    t = getattr(tt["GDEF"].table, attr, None)
+    if t is None:
+        return None
+    if attr == "GlyphClassDef":
+        return sorted(t.classDefs.items())
+    return sorted((g, [(cv.Format, getattr(cv, "Coordinate", None), getattr(cv, "CaretValuePoint", None)) for cv in lg.CaretValue])
+                  for g, lg in zip(t.Coverage.glyphs, t.LigGlyph))
+
+
 def _raw_differs(a, b):
     return (a.getTableData("GSUB") if "GSUB" in a else None) != (b.getTableData("GSUB") if "GSUB" in b else None)
 
@@ -669,7 +773,7 @@ def agree(req, rep):
             return m["err"] == o["err"]
         if any(not v for k, v in o.get("flags", [])):
             return False
-        return m["files"] == _cp(o["files"]) and m["ctx"] == o["ctx"]
+        return m["files"] == _cp(o["files"]) and m["ctx"] == o["ctx"] and m["gdef"] == o.get("gdef", [])
     if req["op"] == "writers":
         return m["err"] == o["err"] and m["list"] == o["list"]
     return m == o
@@ -688,6 +792,8 @@ def shrink(case):
                 if len(case["steps"]) > 1:
                     c = dict(case); c["steps"] = case["steps"][:i] + case["steps"][i + 1:]; yield c
             for i, st in enumerate(case["steps"]):
+                if st["type"] != "writer":
+                    continue
                 for key in ("lookups", "classDefs", "anchorDefs", "markClassDefs"):
                     if st[key]:
                         c = dict(case); s2 = dict(st); s2[key] = []; c["steps"] = case["steps"][:i] + [s2] + case["steps"][i + 1:]; yield c
@@ -717,7 +823,7 @@ def classify_failure(res):
     return None
 
 
-LEVEL_TEXT = ("Proved for all inputs (Lean, 106 theorems/lemmas): for any feature file and any sequence of writers, after every writer "
+LEVEL_TEXT = ("Proved for all inputs (Lean, 126 theorems/lemmas): for any feature file and any sequence of writers, after every writer "
               "the file - with generated statements, comments inside feature blocks (the markers are such) and the boundaries of "
               "split-made blocks erased - reads exactly as the user's file (C17_subsequence, no well-formedness needed); for "
               "files whose comment objects are distinct and writers whose feature blocks are distinct, every step satisfies the "
@@ -726,12 +832,18 @@ LEVEL_TEXT = ("Proved for all inputs (Lean, 106 theorems/lemmas): for any featur
               "marker, unmarked predecessors right before it, the rest at the end (C17_place); the marker is the first comment "
               "directly inside a top-level feature block of that tag matching white space + '# Automatic Code' case-sensitively "
               "(C17_collect, C17_case); the writer list is a stable GSUB-first partition with the ellipsis expanded once "
-              "(C17_gsub_first, C17_ellipsis).  The model is tied to the code by differential runs at the level of AST objects "
+              "(C17_gsub_first, C17_ellipsis); the GDEF writer generates a GlyphClassDef exactly when the user's `table GDEF` has "
+              "none and the font has categories, and one LigatureCaretByPos per glyph with caret anchors exactly when the user's "
+              "table holds no ligature caret statement of either form (by position or by contour point index), nothing else "
+              "(C17_gdef_gen, C17_gdef_keeps_carets/_classes), appended after the user's statements of that table or in one new "
+              "table at the end of the file (C17_gdef_place, C17_gdef_step; both are part of C17_run).  The model is tied to the code by differential runs at the level of AST objects "
               "(user-defined writers and recording subclasses of the shipped ones) and through compileTTF's debugFeatureFile.")
 LEVEL_NOTE = ("Trusted: Lean kernel + propext/Classical.choice/Quot.sound; the hand-written model's correspondence to "
               "baseFeatureWriter.py / featureCompiler.py is differential (bounded by the generators); GSUB invariance (writers vs "
               "no writers) is measured on every end-to-end case, only the table-tag fact behind it is proved "
-              "(C17_gsub_inv_partial); comments inside feature blocks are not part of the preserved skeleton (the code deletes "
+              "(C17_gsub_inv_partial); that the compiled GDEF carets / glyph classes are the hand-written ones (same with and "
+              "without writers) is likewise only measured - predicate-only flags evaluated on observed data, feaLib turns the "
+              "feature text into the binary; comments inside feature blocks are not part of the preserved skeleton (the code deletes "
               "a comment-only block that holds a marker together with its other comments); that the model never raises on "
               "well-formed input is not proved (theorems are stated for runs that return), the one modelled error (the same tag "
               "handed to _insert twice with a marker -> ValueError) is compared by the correspondence.")
